@@ -94,6 +94,28 @@ pub fn run(cfg: &Cfg, out: &mut Out) {
             }
         }
     }
+    // stress: long remainders with the delimiter next to the bytes a word-at-a-time scanner
+    // confuses with it, at every offset near both ends (all four protocols + the find/strip ops)
+    for d in [",", "-"] {
+        for s in confusable_strings(d.as_bytes()[0], cfg.thorough) {
+            for kind in ["split", "rsplit", "split_terminator", "rsplit_terminator"] {
+                let args = format!("{} {} {}", hex(s.as_bytes()), hex(d.as_bytes()), kind);
+                out.line("c14.split", &args, &protocol(&s, d, kind), &protocol_std(&s, d, kind), "delim");
+            }
+            for op in [Op::FindSkip(d), Op::RFindSkip(d), Op::TrimEndMatches(d), Op::TrimStartMatches(d), Op::StripSuffix(d), Op::SplitTerminator(d), Op::RSplitTerminator(d)] {
+                if let Some(fr) = free_fn(&s, op) {
+                    let args = format!("{} {}", hex(s.as_bytes()), op.desc());
+                    let imp = parser_one(&s, op);
+                    let fr_s = match fr {
+                        Some(r) => format!("ok({})", hex(r.as_bytes())),
+                        None => "err".to_string(),
+                    };
+                    let tag = if fr.map_or(true, |r| r.len() != s.len()) { "effect" } else { "-" };
+                    out.line("c14.free", &args, &imp, &fr_s, tag);
+                }
+            }
+        }
+    }
     // F1 shapes through the Parser
     for (s, d) in [("aaab", "aab"), ("abbb", "abb"), ("ababab", "abab")] {
         for kind in ["split", "rsplit", "split_terminator", "rsplit_terminator"] {
